@@ -272,6 +272,11 @@ fn one_case(ctx: &Ctx, rep: &mut Report, class: usize, mix: usize, n: usize, poo
     let mut shape = format!("{}/{}/{n}", CLASSES[class], MIXES[mix]).into_bytes();
     shape.push(0);
     rep.case_bytes(&shape, n >= 1);
+    if n == 3 || n == DOC_FD_LIMIT {
+        rep.sample(serde_json::json!({"class": CLASSES[class], "mix": MIXES[mix], "listeners": n,
+            "manifest_bytes": manifest_bytes,
+            "first_addresses": pool.iter().take(n.min(3)).map(|e| e.addr.to_string()).collect::<Vec<_>>()}));
+    }
     rep.obs("scm_exchanges", 1);
     rep.obs(&format!("scm_class/{}", CLASSES[class]), 1);
     rep.obs(&format!("scm_mix/{}", MIXES[mix]), 1);
